@@ -32,6 +32,16 @@ What is proved:
                            the same of `Spec.modelObsWire`, whose two lists are DECODED from the
                            comma-joined header values the way the harness decodes them; forces
                            "declared methods are tokens" (`C17_wire_witness`: a method `A,B`)
+  * `C17_filter_ignores_request_method`, `C17_preflight_filter`,
+    `C17_holds_jsr_preflights_partial`, `C17_holds_curly_preflights_partial`
+                           OPTIONS requests that carry Access-Control-Request-Method (browser
+                           preflights, any value): the filter model answers them exactly as the bare
+                           OPTIONS request (options_filter.go never reads that header), so
+                           `Spec.c17HoldsAll` — `c17Holds` plus, for every preflight probe the harness
+                           sent, "Allow and Access-Control-Allow-Methods both list the routable
+                           methods, no route function ran" (`Spec.pfHolds`) — holds of the model's
+                           observation and the model's preflight answers (`Spec.modelPreflight`) for
+                           EVERY list of requested-method values; same hypotheses as above
   * `C17_routable_served`, `C17_405_served`
                            panics: `Spec.routable` is "status ≠ 404, 405" and a panic has status 500
                            (model and harness alike), so on a malformed table `C17_405` may call a
@@ -332,6 +342,56 @@ theorem C17_holds_curly_wire_partial (E : ReEnv) (tbl : Config) (hwf : Spec.wfCo
     exact htok s hs rd hrd)]
   exact (C17_holds_curly_partial E tbl hwf hroots hclean req hp hF14 hconds methods hO hcover).1
 
+/-! #### OPTIONS probes that carry Access-Control-Request-Method
+
+The property speaks of the set "listed by the OPTIONS filter (Allow and Access-Control-Allow-Methods)"
+for every URL — for every OPTIONS request the filter answers, a browser's preflight (which names the
+method of the call to come) included.  The harness sends such probes too; `Spec.c17HoldsAll` demands of
+each answer what `c17Holds` demands of the bare one. -/
+
+/-- the filter model does not read Access-Control-Request-Method (options_filter.go:13-27 reads
+    Origin and Access-Control-Request-Headers only) -/
+theorem C17_filter_ignores_request_method (E : ReEnv) (tbl : Config) (rq : Options.OptReq) (a : Str) :
+    Options.optionsOut E tbl { rq with acrm := a } = Options.optionsOut E tbl rq := rfl
+
+/-- what the filter model answers to a preflight probe: the headers of the bare OPTIONS answer,
+    carrying the comma-joined lists of `Spec.modelPreflight`; not passed on -/
+theorem C17_preflight_filter (E : ReEnv) (tbl : Config) (req : Req) (ms : List Str) (a : Str)
+    (hc : Cors.computeAllowedMethods E tbl.services req.path = some ms) :
+    let p := Spec.modelPreflight E tbl req a
+    Options.optionsOut E tbl (Spec.optReqPf req a) = some
+      ⟨[("Allow".toList, Str.join Cors.sComma p.allow), (Cors.hAllowOrigin, []), (Cors.hAllowHeaders, []),
+        (Cors.hAllowMethods, Str.join Cors.sComma p.acam)], false⟩ ∧ p.acrm = a ∧ p.handlerRan = false := by
+  simp only [Allow.modelPreflight_eq E tbl req ms a hc]
+  exact ⟨Allow.filtered_preflight E tbl req ms a hc, trivial, trivial⟩
+
+/-- **C17 as the driver evaluates it, with preflight probes, RouterJSR311** (partial: F14): the
+    hypotheses of `C17_holds_jsr_partial`; every list of Access-Control-Request-Method values -/
+theorem C17_holds_jsr_preflights_partial (E : ReEnv) (tbl : Config) (hk : tbl.router = .jsr)
+    (hwf : tbl.wfTemplates = true) (hroots : Jsr.rootsRead tbl = true)
+    (req : Req) (hF14 : Spec.severalRootsMatch E tbl req.path = false)
+    (hconds : ∀ s ∈ tbl.services, ∀ r ∈ s.built, passesConds r req = true)
+    (methods : List Str) (hO : Cors.sOPTIONS ∈ methods)
+    (hcover : ∀ s ∈ tbl.services, ∀ rd ∈ s.routes, rd.method ∈ methods) (acrms : List Str) :
+    Spec.c17HoldsAll (Spec.modelObs E tbl req methods) (acrms.map (Spec.modelPreflight E tbl req)) = true := by
+  obtain ⟨ms, hc⟩ := Allow.computed_of_wf_jsr E tbl hk hwf hroots req.path
+  exact Allow.c17HoldsAll_model E tbl req methods ms hO hc
+    (C17_holds_jsr_partial E tbl hk hwf hroots req hF14 hconds methods hO hcover).1 acrms
+
+/-- **the same, CurlyRouter** (partial: F14, F15/F16, F20): the hypotheses of `C17_holds_curly_partial` -/
+theorem C17_holds_curly_preflights_partial (E : ReEnv) (tbl : Config) (hwf : Spec.wfCommon tbl = true)
+    (hroots : Spec.rootsDistinct tbl = true) (hclean : Spec.rootsClean tbl = true)
+    (req : Req) (hp : Spec.normalPath req.path = true)
+    (hF14 : Spec.severalRootsMatch E tbl req.path = false)
+    (hconds : ∀ s ∈ tbl.services, ∀ r ∈ s.built, passesConds r req = true)
+    (methods : List Str) (hO : Cors.sOPTIONS ∈ methods)
+    (hcover : ∀ s ∈ tbl.services, ∀ rd ∈ s.routes, rd.method ∈ methods) (acrms : List Str) :
+    Spec.c17HoldsAll (Spec.modelObs E (Spec.withRouter tbl .curly) req methods)
+      (acrms.map (Spec.modelPreflight E (Spec.withRouter tbl .curly) req)) = true := by
+  obtain ⟨ms, hc⟩ := Allow.computed_of_wfCommon E tbl hwf hclean req.path
+  exact Allow.c17HoldsAll_model E (Spec.withRouter tbl .curly) req methods ms hO hc
+    (C17_holds_curly_partial E tbl hwf hroots hclean req hp hF14 hconds methods hO hcover).1 acrms
+
 /-! The frame condition (Lemmas/StateShape.lean): the code has exactly the state this property's model
     accounts for — no further package-level variable, struct type or field; constants as modelled. -/
 -- also: Restful.StateShape.globals_shape
@@ -578,6 +638,33 @@ example : Spec.c17Holds (Spec.modelObsWire E0 (Spec.withRouter (tbl2 .jsr) .curl
   C17_holds_curly_wire_partial E0 (tbl2 .jsr) (by decide) (by decide) (by decide) put2 (by decide) (by decide) (by decide)
     probed (by decide) (by decide) (by decide)
 example := C17_modelObs_filter E0 (tbl2 .jsr) put2 probed ms2 (by decide) (by decide)
+
+/-- preflight probes: `C17_holds_*_preflights_partial`, `C17_preflight_filter`,
+    `C17_filter_ignores_request_method` on the same table — requested methods GET (routable), PUT
+    (not routable), `get`, junk, empty; the model's answer lists GET and POST each time -/
+def acrms2 : List Str := ["GET".toList, "PUT".toList, "get".toList, "x y,".toList, []]
+example : Spec.c17HoldsAll (Spec.modelObs E0 (tbl2 .jsr) put2 probed) (acrms2.map (Spec.modelPreflight E0 (tbl2 .jsr) put2)) = true :=
+  C17_holds_jsr_preflights_partial E0 (tbl2 .jsr) rfl (by decide) (by decide) put2 (by decide) (by decide) probed (by decide)
+    (by decide) acrms2
+example : Spec.c17HoldsAll (Spec.modelObs E0 (Spec.withRouter (tbl2 .jsr) .curly) put2 probed)
+    (acrms2.map (Spec.modelPreflight E0 (Spec.withRouter (tbl2 .jsr) .curly) put2)) = true :=
+  C17_holds_curly_preflights_partial E0 (tbl2 .jsr) (by decide) (by decide) (by decide) put2 (by decide) (by decide) (by decide)
+    probed (by decide) (by decide) acrms2
+example : Spec.modelPreflight E0 (tbl2 .jsr) put2 "PUT".toList = ⟨"PUT".toList, ms2, ms2, false⟩ := by decide
+example := C17_preflight_filter E0 (tbl2 .jsr) put2 ms2 "GET".toList (by decide)
+example := C17_filter_ignores_request_method E0 (tbl2 .jsr) opt2 "GET".toList
+/-- the preflight clause is falsified by an answer that confirms only the requested method in
+    Access-Control-Allow-Methods (Allow complete), by one that lists nothing for a method that is not
+    routable, by an incomplete Allow list, and by a route function that ran -/
+example :
+    let o := Spec.modelObs E0 (tbl2 .jsr) put2 probed
+    Spec.pfHolds o ⟨"GET".toList, ms2, ms2, false⟩ = true ∧
+    Spec.pfHolds o ⟨"GET".toList, ms2, ["GET".toList], false⟩ = false ∧
+    Spec.pfHolds o ⟨"PUT".toList, ms2, [], false⟩ = false ∧
+    Spec.pfHolds o ⟨"GET".toList, ["GET".toList], ["GET".toList], false⟩ = false ∧
+    Spec.pfHolds o ⟨"GET".toList, ms2, ms2, true⟩ = false ∧
+    Spec.c17HoldsAll o [⟨"GET".toList, ms2, ms2, false⟩, ⟨"GET".toList, ms2, ["GET".toList], false⟩] = false := by
+  decide
 
 /-- the predicate is falsified by wrong observations: the filter lists a method that is answered 405
     (PUT) / misses a routable one (POST) / the two headers differ / a route function ran for OPTIONS /
